@@ -5,7 +5,7 @@ Encode / Decode-of-any-byte-string / UTF-8 DFA / Rust's Ord) are evaluated by TL
 per case with the exact expected bytes, size hint, decoded value, bytes consumed, or the acceptable error
 kinds.  The harness engine `codec` drives the real write_into / to_bytes / get_size_hint / read_from on
 SliceReader, std::io::Cursor, ReadAdapter (chunked stream) and read_from_bytes and compares plain values."""
-import json, os, re
+import json, os, re, time
 from concurrent.futures import ThreadPoolExecutor
 import vf
 
@@ -28,8 +28,8 @@ META = dict(
          "value fits usize, the 'does not fit the platform' error cannot occur); error kinds are gated only up to the set "
          "the specification allows (first sequential error, plus InvalidValue for length prefixes exceeding the input, plus "
          "EOF for invalid input that is also too short); get_size_hint is gated for usize only (elsewhere it is documented "
-         "as an estimate); which of two map entries with equal keys survives is not gated; cases reaching a length prefix "
-         ">= 2^20 run in a child process with a 4 GiB address-space limit. bool has no Serializable impl: it is exercised "
+         "as an estimate); which of two map entries with equal keys survives is not gated; the real code runs in a "
+         "forked worker with a 4 GiB address-space limit (an allocation abort is an outcome, not a harness crash). bool has no Serializable impl: it is exercised "
          "through write_bool/read_bool by a one-line wrapper in the harness.",
     design="7/C26")
 
@@ -88,11 +88,15 @@ def replay_scenarios(ck, binary, name, scenarios, extra_args=()):
         raise vf.ToolError("harness produced no summary")
     if summary["scenarios"] != len(scenarios):
         raise vf.ToolError("harness replayed %d of %d scenarios" % (summary["scenarios"], len(scenarios)))
+    if summary.get("stopped_early") and not ck.violations:
+        raise vf.ToolError("harness stopped early after repeated aborts but no violation was recorded")
     ck.traces += summary["scenarios"]
     ck.evaluations += summary["evaluations"]
+    vf.log("[c26] replay %s: %d scenarios, %d real calls, %d mismatches, %d forks" % (
+        name, summary["scenarios"], summary["evaluations"], summary["mismatches"], summary["worker_forks"]))
     ck.part(name, scenarios=summary["scenarios"], real_calls=summary["evaluations"], mismatches=summary["mismatches"],
-            oversized_prefix_cases=summary["oversized_prefix_cases"], worker_forks=summary["worker_forks"],
-            aborts=summary["aborts"], types=summary["types"], size_hints_not_exact=summary["hint_inexact"])
+            worker_forks=summary["worker_forks"], aborts=summary["aborts"],
+            types=len({type_name(s["ty"]) for s in scenarios}), size_hints_not_exact=summary["hint_inexact"])
     return summary
 
 
@@ -161,10 +165,13 @@ def run(ck, tier):
         if not r.ok:
             raise vf.ToolError("specification self-check (Laws) failed in the %s generator — specification bug: %s"
                                % (name, r.error))
+    vf.log("[c26] TLC: vint %.1fs (%d states), codec %.1fs (%d states)" % (rv.wall, rv.distinct, rc_.wall, rc_.distinct))
     ck.add_tlc("gen:vint", rv)
     ck.add_tlc("gen:codec", rc_)
+    t0 = time.time()
     vint = rv.tagged("REPLAY")
     codec = rc_.tagged("REPLAY")
+    vf.log("[c26] parsed %d + %d scenarios in %.1fs" % (len(vint), len(codec), time.time() - t0))
 
     # ---- vacuity guards ----
     small = 32768 if thorough else 4096
@@ -217,7 +224,8 @@ def run(ck, tier):
     ck.sample(next(s for s in codec if s["kind"] == "rt" and s["ty"][0] == "tuple" and len(s["ty"][1]) == 6))
 
     # ---- replay on the real code ----
-    # Every case reaching a length prefix >= 2^20 costs a fork (tens of ms in the sandbox).  The quick tier
+    # Every case reaching a length prefix >= 2^20 currently kills the worker (known finding) and costs a fork
+    # (tens of ms in the sandbox).  The quick tier
     # replays all raw ones and a seeded sample of three per type; the thorough tier replays them all.
     skipped_big = 0
     if not thorough:
@@ -234,7 +242,7 @@ def run(ck, tier):
         codec = [s for i, s in enumerate(codec) if i not in drop]
     replay_scenarios(ck, binary, "vint", vint)
     replay_scenarios(ck, binary, "codec", codec)
-    if binary_dev:      # child-process cases already ran above
+    if binary_dev:      # the oversized-prefix cases already ran above
         replay_scenarios(ck, binary_dev, "vint-dev-profile", vint)
         replay_scenarios(ck, binary_dev, "codec-dev-profile", codec, ["--skip-big"])
     ck.part("codec", case_kinds=kinds, expected_verdicts=verdicts, oversized_length_prefix_cases=nbig,
@@ -253,7 +261,7 @@ def run(ck, tier):
     ck.assumptions = [
         "64-bit platform: every u64 size value fits usize",
         "error kinds are compared against the set the specification allows, not a single kind",
-        "a case that reaches a length prefix >= 2^20 runs in a child process limited to 4 GiB of address space; an abort there is an outcome",
+        "all cases run in a forked worker process limited to 4 GiB of address space; an abort (allocation failure) is an outcome of the case that was running",
         "Rust's std BTreeMap/BTreeSet/String::from_utf8 are trusted only in so far as the decoded value must equal the specified one",
     ]
 
